@@ -696,6 +696,10 @@ func (fc *FontConfigurationPango) splitFirstLine(hyphenCache map[HyphenDictKey]h
 	}
 
 	nextWord := strings.SplitN(string(secondLineText), " ", 2)[0]
+	// a word stops at a preserved line break
+	if i := strings.IndexAny(nextWord, "\n\f\u0085\u2028\u2029"); i != -1 {
+		nextWord = nextWord[:i]
+	}
 	if nextWord != "" {
 		if spaceCollapse {
 			// nextWord might fit without a space afterwards
